@@ -251,6 +251,10 @@ RULESETS = {
     'rate-rate-same-shape-then-assignment': [('rate', 'Cc', 'k2'), ('rate', 'T', 'k2'), ('assignment', 'k2', 'A * 2')],
     'assignment-rate-assignment-rate': [('assignment', 'T', 'A + B'), ('rate', 'Cc', 'k2 * T'), ('assignment', 'k2', 'B / 2'), ('rate', 'A', 'k1 - A')],
     'assignment-assignment': [('assignment', 'T', 'A * B'), ('assignment', 'k2', 'T + 1')],
+    # rate-rule formulas that BEGIN with a unary minus (decay written first): the derivative of the variable is the formula, sign and all
+    'rate:leading-minus-then-production': [('rate', 'Cc', '-k2 * Cc + k1 * A')],
+    'rate:negated-product': [('rate', 'Cc', '-(k2 * Cc)')],
+    'rate:leading-minus-rate-rate': [('rate', 'Cc', '-k2 * Cc + A'), ('rate', 'T', '-T + k1 * B - A')],
 }
 for name, rules in RULESETS.items():
     import_contract('rules:' + name, dict(species=SP4, params=[('k1', '$k1'), ('k2', '$k2')], reactions=RX, rules=rules))
